@@ -570,6 +570,36 @@ def r13_zero_valued_modifications(idx, r):
         raise AnalysisError(f"only {n} applyInputParams with optional arguments found")
 
 
+def r14_total_on_wellformed_input(idx, r):
+    """(a) `origin` of a system is optional (default None): construct() must not dereference it without a None test.  (b) the grid geometry
+    is dispatched by an if/elif chain; a geometry name it does not know (or knows in another capitalisation than the lattice reader accepts)
+    must end in an input error, not fall through with the grid unbound; the name is normalised before it is compared."""
+    f = idx.method("armi.reactor.blueprints.reactorBlueprint.SystemBlueprint", "construct")
+    deref = [x for x in walk_local(f.node) if isinstance(x, ast.Attribute) and norm(x.value) == "self.origin"]
+    for x in deref:
+        conds = " ".join(norm(t) for t, _p in path_conditions(f.node, x))
+        r.require("self.origin" in conds, "system-origin:optional-attribute-tested", f, node=x,
+                  msg=f"`{norm(x)}` dereferences the optional `origin` (default None) unconditionally: a `systems` entry without an origin - allowed by the schema - dies with AttributeError")
+    r.ok("system-origin:scanned", f)
+    g = idx.method("armi.reactor.blueprints.gridBlueprint.GridBlueprint", "_constructSpatialGrid")
+    chain = next((x for x in g.node.body if isinstance(x, ast.If) and "geometry.HEX" in norm(x.test)), None)
+    if chain is None:
+        raise AnchorMissing("_constructSpatialGrid: the HEX / CARTESIAN dispatch")
+    cur, last = chain, None
+    while True:
+        if len(cur.orelse) == 1 and isinstance(cur.orelse[0], ast.If):
+            cur = cur.orelse[0]
+            continue
+        last = cur
+        break
+    ends_in_refusal = any(isinstance(y, ast.Raise) for y in last.body) or any(isinstance(y, ast.Raise) for y in last.orelse)
+    r.require(ends_in_refusal, "grid-geometry:unknown-name-refused", g, node=last,
+              msg="the geometry dispatch has no refusing last branch: an unknown geometry name falls through and the method fails later with UnboundLocalError instead of an input error naming the problem")
+    gv = next((s_ for s_ in iter_stores(g.node) if s_.attr == "geom" and isinstance(s_.node, ast.Name) and s_.value is not None), None)
+    r.require(gv is not None and any(isinstance(c, ast.Call) and call_attr(c) == "lower" for c in ast.walk(gv.value)), "grid-geometry:name-normalised", g, node=gv.stmt if gv else None,
+              msg="the geometry name is compared as written: `geom: Hex`, which the lattice reader and GeomType accept, matches no branch")
+
+
 def run(idx, chk):
     chk.explanation = (
         "C18 is a relation between an input document and an object graph; static analysis claims only: (1) each lattice-map class reads and "
@@ -606,3 +636,5 @@ def run(idx, chk):
                  necessary="block heights and compositions are those of the blueprint text; indexed contents are drawn as text that reads back to them or not at all")
     chk.run_rule("R18.13", "material modifications of value zero are applied: optional applyInputParams arguments are compared with None", lambda r: r13_zero_valued_modifications(idx, r), floor=5,
                  necessary="the built composition is the one the requested material modifications specify")
+    chk.run_rule("R18.14", "an absent system origin is handled; the grid-geometry dispatch normalises the name and refuses unknown ones", lambda r: r14_total_on_wellformed_input(idx, r), floor=3,
+                 necessary="a well-formed blueprint builds a model; an inconsistent one is refused with an error")
